@@ -357,6 +357,11 @@ func c19Process(w *mon.W, _ int) {
 					var guards c19Guards
 					ha := c19Exec(cp, ss, rec.call, &guards)
 					altCalls++
+					if guards.alias {
+						w.Fail("result-shares-memory-with-an-argument-or-another-result/"+c19FnNames[rec.call.fn], mon.D{"function": c19FnNames[rec.call.fn], "args": []int32{rec.call.a, rec.call.b, rec.call.c, rec.call.m},
+							"what": "the returned slice shares memory (within capacities) with the slice passed in, or with the slice a second identical call returned: a caller who appends to or overwrites its result writes into shared memory"})
+						return
+					}
 					if !guards.ok() {
 						w.Fail("store-outside-len-of-argument/"+c19FnNames[rec.call.fn], mon.D{"function": c19FnNames[rec.call.fn], "args": []int32{rec.call.a, rec.call.b, rec.call.c, rec.call.m},
 							"what": "the poison placed before the argument or between its len and cap (or after it) was overwritten during the call"})
